@@ -303,6 +303,21 @@ def h2ToH1 (authOk : Bool) (b : Block) (body : Bytes) : Option Bytes :=
       some (assembleRequestHead r.method r.path sHttp11 (toH1Fields r body) ++ body)
     else none
 
+/-- header list written for a STREAMED HTTP/2 request (flow.request.stream): `raw_content` is None when the head is
+    written, so no Content-Length is added -/
+def toH1FieldsStreamed (r : Req) : List Field := joinCookies (insertHost r)
+
+/-- bytes written to an HTTP/1 server for the HTTP/2 header block `b` whose body is streamed as the DATA frames
+    `chunks` arrive: the head, then every non-empty chunk as it is (chunked re-framing happens only when the head
+    carries Transfer-Encoding: chunked, which an HTTP/2 request cannot), nothing at the end of the message -/
+def h2ToH1Streamed (authOk : Bool) (b : Block) (chunks : List Bytes) : Option Bytes :=
+  match parseH2Request authOk b with
+  | none => none
+  | some r =>
+    if validateRequest r false then
+      some (assembleRequestHead r.method r.path sHttp11 (toH1FieldsStreamed r) ++ chunks.flatten)
+    else none
+
 /-! ### format_h2_request_headers / format_h2_response_headers -/
 
 def pyIsLower (n : Bytes) : Bool :=
